@@ -116,7 +116,11 @@ def inspect(chk, out):
     ms = out["ms"]
     if not np.all(np.isfinite(ms)):
         zero = bool(np.all((out["Ns"] == 0)[~np.isfinite(ms)]))
-        chk.fail("star mean masses are finite", cfg, dict(bad=int(np.sum(~np.isfinite(ms)))), empty_star_bin=zero)
+        lo_, up_ = out["bins"][0]
+        badb = np.flatnonzero(np.any(~np.isfinite(ms), axis=0))
+        outside = bool(all(up_[j] <= cfg["m_breaks"][0] * (1 + 1e-12) or lo_[j] >= cfg["m_breaks"][-1] * (1 - 1e-12) for j in badb))
+        chk.fail("star mean masses are finite", cfg, dict(bad=int(np.sum(~np.isfinite(ms))), bins=[int(j) for j in badb[:5]]),
+                 empty_star_bin=bool(zero and outside and cfg.get("imf_ext") in (None, "zeros")))
     v = out["views"]
     L = len(v["M"])
     if not (len(v["N"]) == L and len(v["m"]) == L and len(v["types"]) == L and len(v["bin_widths"]) == L and v["nms"] + v["nmr"] == L):
